@@ -72,6 +72,22 @@ def run(ctx: Ctx):
     ok = all("'end'" in norm(w.targets[0]) for w in writes)
     ctx.ob("R09.3", f"{ext.qual}: writes only the project end", ext, ok, "no other project attribute is touched" if ok else
            "horizon extension writes other project attributes", key="R09.3|_extendProjectEndIfNeeded|writes")
+    # the extended horizon must not move anybody: the default deadline of backward-scheduled tasks is the DECLARED end
+    tsched = repo.func("TaskScenario.schedule")
+    fdt = ctx.dep.of(tsched)
+    from ..dep import full as _full
+    inits = [n for n in own_nodes(tsched) if isinstance(n, ast.Assign) and norm(n.targets[0]) == "latest_end"
+             and "project" in norm(n.value) and "end" in norm(n.value).lower()]
+    if not inits:
+        raise AnchorMissing("TaskScenario.schedule: default deadline (latest_end) initialisation not found")
+    for n in inits:
+        a = _full(fdt.deps_of(n.value))
+        ok = bool({"field:declaredEnd", "str:declaredEnd"} & a)
+        ctx.ob("R09.3", f"{tsched.qual}: default deadline {norm(n.value)[:60]}", (tsched, n), ok,
+               "backward tasks without a deadline are anchored at the declared project end" if ok else
+               "the default deadline is the project end that _extendProjectEndIfNeeded moves with the total effort: adding a task that "
+               "fits (own resource, lowest priority) shifts every backward-scheduled task of the project",
+               key="R09.3|TaskScenario.schedule|default deadline")
     # ---------------------------------------------------------------- R09.4 inheritance is transitive
     # a container's priority reaches tasks nested more than one level down only if a value the parent itself inherited is
     # passed on: every guard of `my_attr.inherit(parent_attr.get())` accepts provided OR inherited parent values
